@@ -1,8 +1,560 @@
-//! Property check C19 (see /verif/DESIGN.md §4).
-use mc::{Level, Report};
+//! Property check C19 — deterministic math is bit-stable and canonical.
+//!
+//! Exhaustive enumeration of fixed input streams through the real `warp-math` /
+//! `echo-wasm-abi` functions:
+//!   * unary ops: every one of the 2^32 f32 bit patterns (thorough) or a stratified exhaustive
+//!     alphabet (every exponent x 64 mantissa patterns x both signs + boundary bands) (quick);
+//!   * binary ops: all ordered pairs of a class-covering alphabet (64 quick / 256 thorough);
+//!   * ternary ops: all ordered triples of a 64-value alphabet.
+//! Oracles evaluated on every element in this (main, `verif` profile) build, plus a
+//! cross-profile differential: the same binary built with profiles `verifrel` (opt 3, no debug
+//! assertions) and `verifdbg` (opt 0) is run in `--digests` mode and its per-chunk BLAKE3 digests
+//! of the result stream are compared with ours; a mismatch is bisected to the first input.
+//!
+//! Modes:  (default) full check  |  --digests --op NAME [--range a..b]  |  --eval --op NAME --index i
+//!         --panics --op NAME (count panics of an outside-domain op)
+
+mod ops;
+
+use mc::{json, Level, Report, Value};
+use ops::{build_ops, Alph, Op, Out, T_I, T_P, T_R, T_S};
+use rayon::prelude::*;
+use std::collections::{BTreeMap, HashSet};
+
+// ───────────────────────────── stream evaluation ─────────────────────────────
+
+#[derive(Default)]
+struct Stats {
+    evals: u64,
+    special_inputs: u64,
+    panics_in_domain: u64,
+    panics_outside_domain: u64,
+    conflated_nonfinite: u64,
+    empty_outputs: u64,
+    viol: BTreeMap<String, (u64, u64)>, // signature -> (count, first index)
+    distinct: HashSet<u64>,
+    nontrivial: Vec<u128>,
+}
+
+impl Stats {
+    fn v(&mut self, sig: String, idx: u64) {
+        let e = self.viol.entry(sig).or_insert((0, idx));
+        e.0 += 1;
+        if idx < e.1 {
+            e.1 = idx;
+        }
+    }
+    fn merge(&mut self, o: Stats) {
+        self.evals += o.evals;
+        self.special_inputs += o.special_inputs;
+        self.panics_in_domain += o.panics_in_domain;
+        self.panics_outside_domain += o.panics_outside_domain;
+        self.conflated_nonfinite += o.conflated_nonfinite;
+        self.empty_outputs += o.empty_outputs;
+        for (k, (n, i)) in o.viol {
+            let e = self.viol.entry(k).or_insert((0, i));
+            e.0 += n;
+            if i < e.1 {
+                e.1 = i;
+            }
+        }
+        if self.distinct.len() < 100_000 {
+            self.distinct.extend(o.distinct);
+        }
+        self.nontrivial.extend(o.nontrivial);
+    }
+}
+
+fn is_canonical_f32(bits: u32) -> Result<(), &'static str> {
+    let exp = (bits >> 23) & 0xff;
+    let mant = bits & 0x7f_ffff;
+    if bits == 0x8000_0000 {
+        Err("negative-zero")
+    } else if exp == 0 && mant != 0 {
+        Err("subnormal")
+    } else if exp == 255 && mant != 0 && bits != 0x7fc0_0000 {
+        Err("non-canonical-NaN")
+    } else {
+        Ok(())
+    }
+}
+
+fn nonfinite32(v: u64) -> bool {
+    ((v as u32) >> 23) & 0xff == 0xff
+}
+
+/// Evaluate one input; returns false if the op panicked.  Applies the stated conflation.
+fn eval_one(op: &Op, idx: u64, o: &mut Out) -> (bool, bool) {
+    o.reset();
+    let ok = std::panic::catch_unwind(std::panic::AssertUnwindSafe(|| (op.eval)(idx, o))).is_ok();
+    let mut conflated = false;
+    if !ok {
+        o.n = 0;
+        o.push(T_P, if op.conflate { 0 } else { 1 });
+    } else if op.conflate && (0..o.n).any(|i| (o.tag[i] == T_R || o.tag[i] == T_S) && nonfinite32(o.val[i])) {
+        conflated = true;
+        o.n = 0;
+        o.push(T_P, 0);
+    }
+    (ok, conflated)
+}
+
+struct RangeOut {
+    raw: [u8; 32],
+    canon: [u8; 32],
+    stats: Stats,
+}
+
+/// Digest (raw and NaN-canonicalised) of the result stream of `op` over indices a..b; with
+/// `oracles` also evaluates every in-process oracle.
+fn run_range(op: &Op, a: u64, b: u64, oracles: bool, keys: bool) -> RangeOut {
+    let mut hr = blake3::Hasher::new();
+    let mut hc = blake3::Hasher::new();
+    let mut br: Vec<u8> = Vec::with_capacity(1 << 16);
+    let mut bc: Vec<u8> = Vec::with_capacity(1 << 16);
+    let mut st = Stats::default();
+    let mut o = Out::new();
+    let stride = (op.n / 65_536).max(1);
+    for idx in a..b {
+        let (ok, conflated) = eval_one(op, idx, &mut o);
+        br.push(o.n as u8);
+        bc.push(o.n as u8);
+        for i in 0..o.n {
+            br.push(o.tag[i]);
+            br.extend_from_slice(&o.val[i].to_le_bytes());
+            bc.push(o.tag[i]);
+            let mut v = o.val[i];
+            if (o.tag[i] == T_R || o.tag[i] == T_S) && nonfinite32(v) && (v as u32) & 0x7f_ffff != 0 {
+                v = 0x7fc0_0000;
+            }
+            bc.extend_from_slice(&v.to_le_bytes());
+        }
+        if br.len() >= (1 << 16) - 1024 {
+            hr.update(&br);
+            hc.update(&bc);
+            br.clear();
+            bc.clear();
+        }
+        if oracles {
+            st.evals += 1;
+            let special = (op.special)(idx);
+            if special {
+                st.special_inputs += 1;
+                if keys {
+                    let mut k = op.name.as_bytes().to_vec();
+                    k.extend_from_slice(&idx.to_le_bytes());
+                    st.nontrivial.push(Report::key(&k));
+                }
+            }
+            if !ok {
+                if (op.in_domain)(idx) {
+                    st.panics_in_domain += 1;
+                    st.v(format!("{}:panic-on-finite-input", op.name), idx);
+                } else {
+                    st.panics_outside_domain += 1;
+                }
+            }
+            if conflated {
+                st.conflated_nonfinite += 1;
+            }
+            if o.n == 0 {
+                st.empty_outputs += 1;
+            }
+            for i in 0..o.n {
+                if o.tag[i] == T_S {
+                    if let Err(c) = is_canonical_f32(o.val[i] as u32) {
+                        st.v(format!("{}:F32Scalar-result-is-{c}", op.name), idx);
+                    }
+                }
+            }
+            for f in &o.fails[..o.nf] {
+                st.v(format!("{}:{f}", op.name), idx);
+            }
+            if idx % stride == 0 && st.distinct.len() < 4096 {
+                let mut h = 0xcbf2_9ce4_8422_2325u64;
+                for i in 0..o.n {
+                    h = (h ^ o.val[i] ^ ((o.tag[i] as u64) << 56)).wrapping_mul(0x100_0000_01b3);
+                }
+                st.distinct.insert(h);
+            }
+        }
+    }
+    hr.update(&br);
+    hc.update(&bc);
+    RangeOut { raw: *hr.finalize().as_bytes(), canon: *hc.finalize().as_bytes(), stats: st }
+}
+
+fn chunk_size(n: u64) -> u64 {
+    if n > (1 << 24) {
+        1 << 20
+    } else {
+        4096
+    }
+}
+
+fn chunks(n: u64) -> Vec<(u64, u64)> {
+    let c = chunk_size(n);
+    let mut v = Vec::new();
+    let mut a = 0;
+    while a < n {
+        v.push((a, (a + c).min(n)));
+        a += c;
+    }
+    v
+}
+
+// ───────────────────────────── sub-binary modes ─────────────────────────────
+
+fn arg_after(args: &[String], flag: &str) -> Option<String> {
+    args.iter().position(|a| a == flag).and_then(|i| args.get(i + 1).cloned())
+}
+
+fn tier_from(args: &[String]) -> bool {
+    // true = thorough
+    match arg_after(args, "--tier").or_else(|| std::env::var("VERIF_TIER").ok()) {
+        Some(t) => t == "thorough",
+        None => false,
+    }
+}
+
+fn words_json(o: &Out) -> Value {
+    json!((0..o.n)
+        .map(|i| {
+            let t = match o.tag[i] {
+                T_S => "S",
+                T_R => "R",
+                T_I => "I",
+                _ => "PANIC/NONFINITE",
+            };
+            if o.tag[i] == T_S || o.tag[i] == T_R {
+                format!("{t}:{:08x}({:e})", o.val[i] as u32, f32::from_bits(o.val[i] as u32))
+            } else {
+                format!("{t}:{:016x}", o.val[i])
+            }
+        })
+        .collect::<Vec<_>>())
+}
+
+fn sub_mode(args: &[String]) -> bool {
+    let digests = args.iter().any(|a| a == "--digests");
+    let eval = args.iter().any(|a| a == "--eval");
+    let panics = args.iter().any(|a| a == "--panics");
+    if !(digests || eval || panics) {
+        return false;
+    }
+    mc::quiet_panics();
+    let al = Alph::new(tier_from(args));
+    let (ops, outside) = build_ops(&al);
+    let name = arg_after(args, "--op");
+    if panics {
+        for op in outside.iter().filter(|o| name.as_deref().map_or(true, |n| n == o.name)) {
+            let mut o = Out::new();
+            let mut p = 0u64;
+            let mut first = String::new();
+            for idx in 0..op.n {
+                let (ok, _) = eval_one(op, idx, &mut o);
+                if !ok {
+                    p += 1;
+                } else if first.is_empty() {
+                    first = words_json(&o).to_string();
+                }
+            }
+            println!("P {} {} {} {}", op.name, op.n, p, first);
+        }
+        return true;
+    }
+    for op in ops.iter().filter(|o| name.as_deref().map_or(true, |n| n == o.name)) {
+        if eval {
+            let idx: u64 = arg_after(args, "--index").and_then(|s| s.parse().ok()).unwrap_or(0);
+            let mut o = Out::new();
+            eval_one(op, idx, &mut o);
+            println!("E {} {} {}", op.name, idx, words_json(&o));
+            continue;
+        }
+        if let Some(r) = arg_after(args, "--range") {
+            let mut it = r.split("..");
+            let a: u64 = it.next().and_then(|s| s.parse().ok()).unwrap_or(0);
+            let b: u64 = it.next().and_then(|s| s.parse().ok()).unwrap_or(0);
+            let out = run_range(op, a, b.min(op.n), false, false);
+            println!("R {} {} {} {} {}", op.name, a, b, mc::hex(&out.raw), mc::hex(&out.canon));
+            continue;
+        }
+        let cs = chunks(op.n);
+        let res: Vec<RangeOut> = cs.par_iter().map(|&(a, b)| run_range(op, a, b, false, false)).collect();
+        for (i, r) in res.iter().enumerate() {
+            println!("D {} {} {} {}", op.name, i, mc::hex(&r.raw), mc::hex(&r.canon));
+        }
+    }
+    true
+}
+
+fn run_sub(bin: &str, tier: &str, extra: &[String]) -> Result<Vec<Vec<String>>, String> {
+    let out = std::process::Command::new(bin)
+        .args(["--tier", tier])
+        .args(extra)
+        .env("VERIF_TIER", tier)
+        .output()
+        .map_err(|e| format!("cannot run {bin}: {e}"))?;
+    if !out.status.success() {
+        return Err(format!(
+            "{bin} {:?} exited with {:?}: {}",
+            extra,
+            out.status.code(),
+            String::from_utf8_lossy(&out.stderr).lines().rev().take(3).collect::<Vec<_>>().join(" | ")
+        ));
+    }
+    Ok(String::from_utf8_lossy(&out.stdout)
+        .lines()
+        .map(|l| l.split(' ').map(|s| s.to_string()).collect())
+        .collect())
+}
+
+// ───────────────────────────── differential ─────────────────────────────
+
+struct Other {
+    tag: &'static str,
+    bin: String,
+}
+
+/// Find the first index in a..b whose result differs between us and `other` (digest column
+/// `col`: 4 = raw, 5 = NaN-canonicalised).
+fn bisect(op: &Op, other: &Other, tier: &str, a: u64, b: u64, canon: bool) -> Result<u64, String> {
+    let differs = |lo: u64, hi: u64| -> Result<bool, String> {
+        let mine = run_range(op, lo, hi, false, false);
+        let l = run_sub(&other.bin, tier, &["--digests".into(), "--op".into(), op.name.into(), "--range".into(), format!("{lo}..{hi}")])?;
+        let line = l.iter().find(|x| x.len() >= 6 && x[0] == "R").ok_or("no R line from sub-binary")?;
+        let (m, t) = if canon { (mc::hex(&mine.canon), &line[5]) } else { (mc::hex(&mine.raw), &line[4]) };
+        Ok(m != *t)
+    };
+    let (mut lo, mut hi) = (a, b);
+    if !differs(lo, hi)? {
+        return Err(format!("chunk {a}..{b} digests differ but the range digest does not (nondeterminism?)"));
+    }
+    while hi - lo > 1 {
+        let mid = lo + (hi - lo) / 2;
+        if differs(lo, mid)? {
+            hi = mid;
+        } else {
+            lo = mid;
+        }
+    }
+    Ok(lo)
+}
+
+fn eval_remote(op: &Op, other: &Other, tier: &str, idx: u64) -> String {
+    match run_sub(&other.bin, tier, &["--eval".into(), "--op".into(), op.name.into(), "--index".into(), idx.to_string()]) {
+        Ok(l) => l.iter().find(|x| x.len() >= 4 && x[0] == "E").map(|x| x[3..].join(" ")).unwrap_or_default(),
+        Err(e) => e,
+    }
+}
+
+fn case_json(op: &Op, idx: u64) -> Value {
+    let mut o = Out::new();
+    eval_one(op, idx, &mut o);
+    json!({"op": op.name, "index": idx, "inputs": (op.describe)(idx), "result_in_this_build": words_json(&o)})
+}
+
+fn differential(r: &Report, op: &Op, mine: &[RangeOut], others: &[Other], tier: &str) {
+    let cs = chunks(op.n);
+    for other in others {
+        let lines = match run_sub(&other.bin, tier, &["--digests".into(), "--op".into(), op.name.into()]) {
+            Ok(l) => l,
+            Err(e) => {
+                r.machinery_error(&e);
+                continue;
+            }
+        };
+        let theirs: Vec<&Vec<String>> = lines.iter().filter(|x| x.len() >= 5 && x[0] == "D" && x[1] == op.name).collect();
+        if theirs.len() != mine.len() {
+            r.machinery_error(&format!("{}: {} build printed {} chunk digests, expected {}", op.name, other.tag, theirs.len(), mine.len()));
+            continue;
+        }
+        r.counter(&format!("digest_chunks_compared_{}", other.tag), mine.len() as u64);
+        r.counter("digest_chunks_compared", mine.len() as u64);
+        let mut raw_bad = Vec::new();
+        let mut canon_bad = Vec::new();
+        for (i, (m, t)) in mine.iter().zip(theirs.iter()).enumerate() {
+            if mc::hex(&m.raw) != t[3] {
+                raw_bad.push(i);
+            }
+            if mc::hex(&m.canon) != t[4] {
+                canon_bad.push(i);
+            }
+        }
+        if let Some(&c) = canon_bad.first() {
+            match bisect(op, other, tier, cs[c].0, cs[c].1, true) {
+                Ok(idx) => r.violation(
+                    &format!("{}:profile-divergence", op.name),
+                    json!({"case": case_json(op, idx), "other_build": other.tag, "result_in_other_build": eval_remote(op, other, tier, idx),
+                           "first_differing_chunk": c, "differing_chunks": canon_bad.len(), "chunks": mine.len()}),
+                ),
+                Err(e) => r.machinery_error(&format!("{}: bisect failed: {e}", op.name)),
+            }
+        }
+        if let Some(&c) = raw_bad.iter().find(|c| !canon_bad.contains(c)) {
+            match bisect(op, other, tier, cs[c].0, cs[c].1, false) {
+                Ok(idx) => r.violation(
+                    &format!("{}:profile-divergence:NaN-payload-only", op.name),
+                    json!({"case": case_json(op, idx), "other_build": other.tag, "result_in_other_build": eval_remote(op, other, tier, idx),
+                           "first_differing_chunk": c, "differing_chunks": raw_bad.len(), "chunks": mine.len()}),
+                ),
+                Err(e) => r.machinery_error(&format!("{}: bisect failed: {e}", op.name)),
+            }
+        }
+    }
+}
+
+// ───────────────────────────── main ─────────────────────────────
 
 fn main() {
+    let args: Vec<String> = std::env::args().collect();
+    if sub_mode(&args) {
+        return;
+    }
     let r = Report::new("C19", Level::Exploration);
-    r.machinery_error("check not implemented yet");
+    mc::quiet_panics();
+    let tier = if r.thorough() { "thorough" } else { "quick" };
+    let al = Alph::new(r.thorough());
+    let (ops, outside) = build_ops(&al);
+
+    let mut others = Vec::new();
+    for (tag, var) in [("prod", "VERIF_BIN_PROD"), ("dbg", "VERIF_BIN_DBG")] {
+        match std::env::var(var) {
+            Ok(b) if std::path::Path::new(&b).exists() => others.push(Other { tag, bin: b }),
+            _ => {
+                if r.replay.is_none() {
+                    r.machinery_error(&format!("{var} not set / not a file: the cross-profile differential needs the {tag} build (./check builds it; by hand: cargo build --offline --profile {})", if tag == "prod" { "verifrel" } else { "verifdbg" }))
+                }
+            }
+        }
+    }
+
+    if let Some(p) = r.replay.clone() {
+        r.rule("replay of one recorded case");
+        r.nontrivial(b"replay-a");
+        r.nontrivial(b"replay-b");
+        let v: Value = serde_json::from_str(&std::fs::read_to_string(&p).unwrap_or_default()).unwrap_or(Value::Null);
+        let name = v["detail"]["case"]["op"].as_str().unwrap_or("").to_string();
+        let idx = v["detail"]["case"]["index"].as_u64().unwrap_or(0);
+        r.sample(json!({"replay": p.display().to_string(), "op": name, "index": idx}));
+        match ops.iter().find(|o| o.name == name) {
+            None => r.machinery_error("replay file names an unknown op"),
+            Some(op) => {
+                println!("[C19 replay] {}", case_json(op, idx));
+                for o in &others {
+                    println!("[C19 replay] {} build: {}", o.tag, eval_remote(op, o, tier, idx));
+                }
+                let out = run_range(op, idx, idx + 1, true, false);
+                r.eval(1);
+                for (sig, (n, i)) in out.stats.viol {
+                    r.violation(&sig, json!({"case": case_json(op, i), "count": n}));
+                }
+                let mine = [run_range(op, idx, idx + 1, false, false)];
+                for o in &others {
+                    if let Ok(l) = run_sub(&o.bin, tier, &["--digests".into(), "--op".into(), name.clone(), "--range".into(), format!("{idx}..{}", idx + 1)]) {
+                        if let Some(line) = l.iter().find(|x| x.len() >= 6 && x[0] == "R") {
+                            if line[4] != mc::hex(&mine[0].raw) {
+                                r.violation(&format!("{}:profile-divergence", op.name), json!({"case": case_json(op, idx), "other_build": o.tag}));
+                            }
+                        }
+                    }
+                }
+            }
+        }
+        r.finish();
+    }
+
+    r.rule(&format!(
+        "Fixed input streams, every element evaluated on the real code. Unary ops: {} f32 bit patterns ({}). \
+         Binary ops: all ordered pairs over a class-covering alphabet of {} f32 values (vectors/quaternions/matrices/Q32.32 raws derived index-wise from it: {} vectors, {} quaternions, {} matrices, {} raw i64). \
+         Ternary ops: all ordered triples over {} values. PRNG: {} seed pairs x {} (min,max) ranges x 8 draws. \
+         Oracles per element: F32Scalar results are never -0/subnormal/non-canonical NaN and equal the canonical-form reference; sin(-x) == -sin(x), cos(-x) == cos(x) bit-exact (float lane, raw Mat4 path and fixed lane), |sin|,|cos| <= 1, sin_cos consistent, within 1e-4 of libm f64 for |x| <= 64; no panic on finite inputs (catch_unwind); integer-exact references for Q32.32 conversions and DFix64 arithmetic; det_sqrt equals correctly rounded sqrt; PRNG draws inside [min,max]. \
+         Differential: per-chunk BLAKE3 digests of the result stream of every op from the verifrel (opt 3, no debug assertions) and verifdbg (opt 0) builds of this binary are compared with this build's (opt 2, debug assertions); a mismatch is bisected to the first differing input. \
+         distinct_nontrivial = distinct (op, input index) cases whose input contains a NaN/inf/subnormal/-0, an angle beyond the first quadrant, a saturating/tie raw value or a non-trivial PRNG range (keys recorded for streams <= 2^20 elements; larger sweeps are counted in counters.special_inputs_*).",
+        al.unary_n(),
+        if r.thorough() { "ALL 2^32" } else { "every exponent x 64 mantissa patterns x both signs, plus +-64-ulp bands around pi/2, pi, 3pi/2, 2pi, 4pi and 1.0" },
+        al.b.len(), al.v.len(), al.q.len(), al.m.len(), al.iraw.len(), al.t.len(), al.seeds.len(), al.ranges.len()
+    ));
+    r.assume("profiles are compared on this machine/target only (x86_64 linux); 32-bit / wasm targets are not covered");
+    r.assume("quaternion ops whose result has a non-finite component are hashed as one class 'non-finite' in the differential (debug builds panic in Quat::new's documented debug_assert where release returns the value); panics on all-finite inputs are still reported by the in-process totality oracle");
+    r.assume("sin/cos entry points with NaN/Inf angles are outside the stated domain: exercised separately and reported under profile_dependent_panics, excluded from the differential");
+    r.assume("libm (f64, software) is the accuracy reference for |x| <= 64 with tolerance 1e-4; IEEE-754 f32 sqrt of std is the reference for det_sqrt");
+
+    let mut total_special = 0u64;
+    let mut per_op = serde_json::Map::new();
+    let mut sampled = 0;
+    for op in &ops {
+        if r.over_budget_frac(0.92) {
+            r.cap_hit(&format!("op {} ({} inputs) not run: wall cap", op.name, op.n));
+            continue;
+        }
+        let t0 = r.elapsed_s();
+        let cs = chunks(op.n);
+        let keys = op.n <= (1 << 20);
+        let res: Vec<RangeOut> = cs.par_iter().map(|&(a, b)| run_range(op, a, b, true, keys)).collect();
+        let mut st = Stats::default();
+        let mut mine = Vec::with_capacity(res.len());
+        for mut x in res {
+            st.merge(std::mem::take(&mut x.stats));
+            mine.push(x);
+        }
+        r.eval(st.evals);
+        r.nontrivial_many(st.nontrivial.iter().copied());
+        total_special += st.special_inputs;
+        r.counter(&format!("special_inputs_{}", op.name), st.special_inputs);
+        r.counter("panics_on_nonfinite_inputs_to_checked_ops", st.panics_outside_domain);
+        r.counter("quat_results_conflated_as_nonfinite", st.conflated_nonfinite);
+        let nd = st.distinct.len();
+        r.outcome_n(&format!("distinct_outputs:{}", op.name), nd as u64);
+        r.guard(&format!("op_{}_produced_{}plus_distinct_outputs", op.name, op.min_distinct), nd >= op.min_distinct);
+        for (sig, (n, idx)) in &st.viol {
+            r.violation(sig, json!({"case": case_json(op, *idx), "count": n, "note": "first (lowest-index) failing input of this class"}));
+        }
+        if sampled < 8 {
+            // one real case per op: a mid-stream element
+            let idx = (op.n / 3) | 1;
+            r.sample(case_json(op, idx.min(op.n - 1)));
+            sampled += 1;
+        }
+        differential(&r, op, &mine, &others, tier);
+        per_op.insert(op.name.to_string(), json!({"inputs": op.n, "chunks": cs.len(), "distinct_outputs_seen": nd, "special_inputs": st.special_inputs,
+            "panics_finite_inputs": st.panics_in_domain, "panics_nonfinite_inputs": st.panics_outside_domain, "skipped_outside_domain": st.empty_outputs, "wall_s": ((r.elapsed_s() - t0) * 100.0).round() / 100.0}));
+        println!("[C19] {:<18} n={:<11} distinct>={:<5} special={:<10} {:.1}s", op.name, op.n, nd, st.special_inputs, r.elapsed_s() - t0);
+    }
+    r.note("per_op", Value::Object(per_op));
+
+    // outside-domain entry points (non-finite angles): evidence only
+    let mut pdp = serde_json::Map::new();
+    let mut pd_total = 0u64;
+    for op in &outside {
+        let mut o = Out::new();
+        let mut p = 0u64;
+        for idx in 0..op.n {
+            let (ok, _) = eval_one(op, idx, &mut o);
+            if !ok {
+                p += 1;
+            }
+        }
+        pd_total += op.n;
+        let mut e = serde_json::Map::new();
+        e.insert("inputs".into(), json!(op.n));
+        e.insert("main(verif: opt2, debug-assertions)".into(), json!(format!("{p} panics")));
+        for other in &others {
+            if let Ok(l) = run_sub(&other.bin, tier, &["--panics".into(), "--op".into(), op.name.into()]) {
+                if let Some(x) = l.iter().find(|x| x.len() >= 4 && x[0] == "P") {
+                    e.insert(other.tag.into(), json!(format!("{} panics; first non-panicking result {}", x[3], x[4..].join(" "))));
+                }
+            }
+        }
+        pdp.insert(op.name.to_string(), Value::Object(e));
+    }
+    r.note("profile_dependent_panics", Value::Object(pdp));
+    r.counter("nonfinite_angle_cases_exercised", pd_total);
+
+    r.counter("special_inputs_total", total_special);
+    r.guard("nan_inf_subnormal_inputs_were_included", total_special > 0 && al.class_counts().iter().all(|(_, n)| *n > 0));
+    r.note("unary_alphabet_classes", json!(al.class_counts().into_iter().collect::<BTreeMap<_, _>>()));
+    r.guard("digest_chunks_compared_gt_0", r.counter_value("digest_chunks_compared") > 0);
+    r.guard("both_other_profiles_compared", others.len() == 2);
     r.finish();
 }
